@@ -208,16 +208,19 @@ func SetupC07Pair() any {
 		}
 	case 9: // every unregistered prefix of a route that ends before a '/' is inserted and deleted again
 		insertAll()
+		done := map[string]bool{} // each prefix once per method (an even number of toggles could cancel out)
 		for i, rt := range set.Routes {
 			m := methodOf(i)
-			for cut := 1; cut < len(rt.Pattern); cut++ {
-				if rt.Pattern[cut] != '/' {
+			for cut := 1; cut <= len(rt.Pattern); cut++ {
+				// prefixes that end before a '/' ("/foo") and right after one ("/foo/")
+				if !(cut < len(rt.Pattern) && rt.Pattern[cut] == '/') && rt.Pattern[cut-1] != '/' {
 					continue
 				}
 				pre := rt.Pattern[:cut]
-				if pre == "" || b.r.Has(m, pre) {
+				if pre == "" || done[m+" "+pre] || b.r.Has(m, pre) {
 					continue
 				}
+				done[m+" "+pre] = true
 				if _, err := b.r.Handle(m, pre, b.handler()); err != nil {
 					continue // not a valid pattern on its own, or conflicting
 				}
@@ -257,6 +260,7 @@ func HarnessC07Pair(st any) {
 	if ra != nil && rb != nil {
 		sym.Cover("both matched")
 		sym.Assert(ra.Pattern() == rb.Pattern(), "same route regardless of history")
+		sym.Assert(ra == s.a.r.Route(method, ra.Pattern()) && rb == s.b.r.Route(method, rb.Pattern()), "the route a request is served by is the one currently registered under its pattern")
 		sym.Assert(sameParams(collectParams(ca), collectParams(cb)), "same parameters regardless of history")
 	}
 	if ca != nil {
